@@ -477,3 +477,25 @@ func bigEnv() map[string]any {
 }
 
 func init() { generators["scaling"] = genScaling }
+
+// "deepexpr": one operator nested many levels deep - (((n op 1) op 1) ... op 1).  Evaluating it takes time proportional
+// to its length, whatever the operator: each operand is evaluated once.
+func genDeepExpr(r *rand.Rand, i int) J {
+	ops := []string{"==", "!=", "<", ">", "<=", ">=", "and", "or", "contains"}
+	depths := []int{12, 30, 48}
+	if i >= len(ops)*len(depths)*2 {
+		return nil
+	}
+	op, d, form := ops[i%len(ops)], depths[(i/len(ops))%len(depths)], i/len(ops)/len(depths)
+	e := pick(r, []string{"n", "5", "'a'", "nil"})
+	for k := 0; k < d; k++ {
+		e = "(" + e + " " + op + " " + pick(r, []string{"1", "n", "true", "'a'"}) + ")"
+	}
+	src := "{% if " + e + " %}y{% else %}n{% endif %}"
+	if form == 1 {
+		src = "{{ " + e + " }}{% assign v = " + e + " %}"
+	}
+	return J{"kind": "render", "src": bs(src), "env": []any{}, "weird": true, "nospec": true, "tm": "TraceC01"}
+}
+
+func init() { generators["deepexpr"] = genDeepExpr }
